@@ -1591,6 +1591,12 @@ func wrappedMethod(fn *ssa.Function) *ssa.Function {
 			if ci, ok := in.(ssa.CallInstruction); ok {
 				n++
 				found = ci.Common().StaticCallee()
+				if found == nil && theProg != nil {
+					// the wrapper of an interface method value: the one implementation, if there is one
+					if cands := theProg.Callees(in); len(cands) == 1 {
+						found = cands[0]
+					}
+				}
 			}
 		}
 	}
